@@ -114,15 +114,16 @@ Qed.
 
 Lemma gcl_int_case : forall mn mx,
   construct gclmulchunker_spec [("min_length", VInt mn); ("max_length", VInt mx)] = true ->
-  (1 <=? mn) && (4 * ((mn + 3) / 4) <=? mx) = true.
+  (1 <=? mn) && (4 * ((mn + 3) / 4) <=? mx) && (mx <=? 9223372036854775807) = true.
 Proof.
   intros mn mx. unfold construct. crunch.
   destruct (2 * mn <? 2 * 1) eqn:E1; crunch; [discriminate|].
   destruct (2 * mx <? 2 * mn) eqn:E2; crunch; [discriminate|].
+  destruct (2 * 9223372036854775807 <? 2 * mx) eqn:E4; crunch; [discriminate|].
   change (num_floordiv (NI (mn + 4 - 1)) (NI 4)) with (Some (NI ((mn + 4 - 1) / 4))). crunch.
   destruct (2 * mx <? 2 * ((mn + 4 - 1) / 4 * 4)) eqn:E3; crunch; [discriminate|].
   intros _. zb. replace (mn + 4 - 1) with (mn + 3) in E3 by lia.
-  apply andb_true_intro. split; apply Z.leb_le; lia.
+  apply andb_true_intro. split; [apply andb_true_intro; split|]; apply Z.leb_le; lia.
 Qed.
 
 Lemma chunker_checks_imply_domain : forall a args,
